@@ -593,13 +593,31 @@ pub fn spec_run(t: &OTree, root: usize, hdr0: usize, s0: &[u8], st: &mut RunSt) 
     }
 }
 
+/// grammar.vrs msg_complete: going through the message unit by unit reaches a terminator, an empty message or a
+/// faulty unit before the input ends
+pub fn msg_complete(t: &OTree, root: usize, hdr0: usize, s0: &[u8]) -> bool {
+    let (mut hdr, mut s) = (hdr0, s0);
+    loop {
+        match sp_unit(t, root, hdr, s) {
+            Err(PK::Inc) => return false,
+            Err(_) => return true,
+            Ok((_, None)) => return true,
+            Ok((n, Some(c))) => {
+                if c.terminated { return true; }
+                if !(1 <= n && n <= s.len()) { return true; }
+                hdr = match c.path { Some(h) => h, None => hdr };
+                s = &s[n..];
+            },
+        }
+    }
+}
 /// process_model: PSt and feed_byte / feed
 pub struct PSt { pub st: RunSt, pub win: Vec<u8>, pub outs: Vec<Vec<Tok>>, /// stream position after which each payload is due
     pub due: Vec<usize>, pub fed: usize }
 pub fn feed_byte(t: &OTree, p: &mut PSt, b: u8, cap: usize) {
     p.win.push(b);
     p.fed += 1;
-    if b == 10 {
+    if b == 10 && msg_complete(t, 0, 0, &p.win) {
         p.st.out.clear();
         let rest = spec_run(t, 0, 0, &p.win.clone(), &mut p.st);
         let consumed = p.win.len() - rest;
